@@ -206,9 +206,12 @@ def replay_memo(args):
 
         env = c05.Env(None)
         sv_used = None
+        ren_, fact_, which_ = args.get("ren", True), args.get("fact", True), args.get("which", "qg")
         for nf in args["seq"]:
-            got, _, _, sv_used = c05.run_real_sv(env, nf, args["pto"], True, True, "qg", sv=sv_used)
-        fresh = c05.run_real_sv(env, args["seq"][-1], args["pto"], True, True, "qg")[0]
+            got, _, _, sv_used = c05.run_real_sv(env, nf, args["pto"], ren_, fact_, which_, sv=sv_used)
+        fresh = c05.run_real_sv(env, args["seq"][-1], args["pto"], ren_, fact_, which_)[0]
+        if (sv_used.activate_ren, sv_used.activate_fact) != (ren_, fact_):
+            return True, f"the shared manager's switches changed to ({sv_used.activate_ren}, {sv_used.activate_fact}) while serving nf={args['seq']} (built with {ren_}, {fact_})"
         bad = [(k, pid, float(got[k][pid]), float(fresh[k][pid])) for k in fresh for pid in fresh[k]
                if abs(float(got.get(k, {}).get(pid, 0)) - float(fresh[k][pid])) > 1e-9 * max(1.0, abs(float(fresh[k][pid])))]
         if bad:
@@ -511,14 +514,24 @@ def run(chk, only=None):
         # served other nf regions before (any memo inside apply_common/apply_diff_scale_variations must be keyed by nf)
         from yv.props import c05
 
-        for pto, seq in ((2, (3, 4)), (2, (5, 4)), (3, (4, 5, 4)), (1, (4, 5))) if q else ((2, (3, 4)), (2, (5, 4)), (3, (4, 5, 4)), (1, (4, 5)), (3, (3, 6)), (2, (6, 3, 4))):
+        for (pto, seq), (ren_, fact_, which_) in itertools.product(
+                ((2, (3, 4)), (2, (5, 4)), (3, (4, 5, 4)), (1, (4, 5))) if q else ((2, (3, 4)), (2, (5, 4)), (3, (4, 5, 4)), (1, (4, 5)), (3, (3, 6)), (2, (6, 3, 4))),
+                ((True, True, "qg"), (True, False, "qgi"), (False, True, "qgi"))):
             with Ctx(chk.seed) as ctx:
                 env = c05.Env(ctx)
                 try:
                     sv_used = None
                     for nf in seq:
-                        got, _, _, sv_used = c05.run_real_sv(env, nf, pto, True, True, "qg", sv=sv_used)
-                    fresh = c05.run_real_sv(env, seq[-1], pto, True, True, "qg")[0]
+                        got, _, _, sv_used = c05.run_real_sv(env, nf, pto, ren_, fact_, which_, sv=sv_used)
+                    fresh = c05.run_real_sv(env, seq[-1], pto, ren_, fact_, which_)[0]
+                    # the user's switches are part of the manager's configuration, not of its state
+                    chk.obligations += 1
+                    if (sv_used.activate_ren, sv_used.activate_fact) == (ren_, fact_):
+                        chk.discharged += 1
+                    else:
+                        chk.report("memo:sv_switches", f"after serving nf={seq} the shared scale-variation manager has RenScaleVar={sv_used.activate_ren}, "
+                                   f"FactScaleVar={sv_used.activate_fact}; it was built with {ren_}, {fact_}", "memo",
+                                   dict(what="sv_tensors", pto=pto, seq=list(seq), ren=ren_, fact=fact_, which=which_, label="switches"))
                 except Exception as e:  # noqa
                     chk.inconclusive_note(f"sv history {seq}: harness exception {e!r}")
                     continue
@@ -527,10 +540,10 @@ def run(chk, only=None):
                     for pid in sorted(set(got.get(key, {})) | set(fresh.get(key, {}))):
                         prs.append((f"order{key}[{pid}]", got.get(key, {}).get(pid, 0), fresh.get(key, {}).get(pid, 0)))
 
-                def rp_for(lab, pto=pto, seq=seq):
-                    return lambda model: ("memo", dict(what="sv_tensors", pto=pto, seq=list(seq), label=lab))
+                def rp_for(lab, pto=pto, seq=seq, ren_=ren_, fact_=fact_, which_=which_):
+                    return lambda model: ("memo", dict(what="sv_tensors", pto=pto, seq=list(seq), ren=ren_, fact=fact_, which=which_, label=lab))
 
-                harness.prove_pairs(chk, f"memo:sv-tensors:pto{pto}:nf{seq}", prs, ctx.facts(), rp_for, lambda lab: "memo:sv_tensors:history",
+                harness.prove_pairs(chk, f"memo:sv-tensors:pto{pto}:nf{seq}:ren={ren_}:fact={fact_}:{which_}", prs, ctx.facts(), rp_for, lambda lab: "memo:sv_tensors:history",
                                     sample={"sequence": list(seq), "pto": pto, "entries": len(prs)})
         # interpolator memo: distinct arguments -> distinct grids, same arguments -> same object
         loads = []
